@@ -82,6 +82,8 @@ pub enum E {
     /// `del(<path expr>)` / `exists(<path expr>)`: argument is a path query, not a value
     Del { target: Target, compact: bool },
     Exists(Target),
+    /// query on a container literal: `{"a": 1, "b": 2}.a`, `[1, 2][0]`
+    Cont(Box<E>, SegPath),
 }
 
 pub type Program = Vec<E>;
@@ -243,6 +245,10 @@ pub fn expr_src(e: &E, ind: usize) -> String {
             }
         }
         E::Exists(t) => format!("exists({})", target_src(t)),
+        E::Cont(inner, p) => {
+            let first_is_index = matches!(p.first(), Some(Seg::I(_)));
+            format!("{}{}", expr_src(inner, ind), path_src(p, !first_is_index))
+        }
     }
 }
 
@@ -261,7 +267,7 @@ pub fn size(e: &E) -> usize {
         E::Arr(v) | E::Block(v) => v.iter().map(size).sum(),
         E::Obj(m) => m.iter().map(|(_, x)| size(x)).sum(),
         E::Bin(_, a, b) => size(a) + size(b),
-        E::Not(a) | E::Return(a) | E::Assign(_, a) => size(a),
+        E::Not(a) | E::Return(a) | E::Assign(_, a) | E::Cont(a, _) => size(a),
         E::AssignInf { e, .. } => size(e),
         E::If { arms, els } => {
             arms.iter().map(|(p, b)| p.iter().map(size).sum::<usize>() + b.iter().map(size).sum::<usize>()).sum::<usize>()
@@ -285,7 +291,7 @@ pub fn walk<'a>(e: &'a E, f: &mut dyn FnMut(&'a E)) {
             walk(a, f);
             walk(b, f);
         }
-        E::Not(a) | E::Return(a) | E::Assign(_, a) => walk(a, f),
+        E::Not(a) | E::Return(a) | E::Assign(_, a) | E::Cont(a, _) => walk(a, f),
         E::AssignInf { e, .. } => walk(e, f),
         E::If { arms, els } => {
             for (p, b) in arms {
